@@ -27,6 +27,9 @@ typedef struct {
     int n[B_MAXR];  /* num_waiters of round k */
     int reinit;     /* call ABT_barrier_reinit between all rounds (2: early) */
     int ntask;      /* tasklets on ES1 calling ABT_barrier_wait once */
+    int free_early; /* participant 1 frees the barrier right after its last wait
+                     * returned (participant 0 is the last arrival and may still
+                     * be inside ABT_barrier_wait: ABT_barrier_free waits for it) */
 } cfg_t;
 
 /* NOTE: registry/C08.json names configs 0-3 by index for its P=3 runs; keep
@@ -67,6 +70,15 @@ static const cfg_t cfgs[] = {
       2, { 2, 3 }, 2, 0 },
     { "early reinit 2->2 r=3: X (reinit) + U1", 0, 2, { K_X, K_U1 }, 3,
       { 2, 2, 2 }, 2, 0 },
+    /* a released waiter frees the barrier at once */
+    { "free by a released waiter n=2 r=2: M (last arrival) + U1 (frees)", 1, 2,
+      { K_M, K_U1 }, 2, { 2, 2 }, 0, 0, 1 },
+    { "free by a released waiter n=3 r=1: X (last arrival) + U1 (frees) + U0", 0, 3,
+      { K_X, K_U1, K_U0 }, 1, { 3 }, 0, 0, 1 },
+    /* (not checked: the same with an EXTERNAL-thread waiter of the round still
+     * leaving -- it re-reads the futex word inside the barrier after the free;
+     * neither C08 nor the documentation covers freeing at that moment, see
+     * DESIGN.md 8.2 "observations") */
 };
 
 static const cfg_t *C;
@@ -109,7 +121,7 @@ static void waiter(int i)
         }
         if (i >= C->n[k])
             continue;
-        if (C->reinit == 2 && i == 0 && C->n[k] > 1) {
+        if ((C->reinit == 2 || C->free_early) && i == 0 && C->n[k] > 1) {
             /* early reinit is only defined when issued by the LAST arrival of the
              * round (the others are released by its broadcast before it resets
              * the arrival counter; a released waiter that reinitialised at once
@@ -131,6 +143,11 @@ static void waiter(int i)
         b_depart(i, k, "ABT_barrier");
         if (C->reinit)
             abtmc_fetch_add(&left_cnt[k], 1);
+    }
+    if (C->free_early && i == 1) {
+        /* nobody is blocked on the barrier any more; the last arrival may still
+         * be between its broadcast and its return */
+        OK(ABT_barrier_free(&BAR));
     }
 }
 
@@ -215,7 +232,10 @@ static void scenario(int cfg)
     }
 
     /* the barrier must be idle: free is only defined without waiters */
-    OK(ABT_barrier_free(&BAR));
+    if (!C->free_early)
+        OK(ABT_barrier_free(&BAR));
+    else
+        abtmc_check(BAR == ABT_BARRIER_NULL, "harness", "barrier not freed");
     if (need_es1) {
         OK(ABT_xstream_join(es1));
         OK(ABT_xstream_free(&es1));
